@@ -255,6 +255,13 @@ class Impl:
         if c == "eo.setbounds":
             self.eo.SetBounds(self.eo_vis[int(t[1])], self.eo_vis[int(t[2])])
             return "ok"
+        if c == "eo.poke":
+            a = self.eo_vis[int(t[1])]
+            vals = [h2f(v) for v in t[2:]]
+            if len(vals) != len(a):
+                return "bad-op"
+            a[:] = vals          # in place (an integer-typed array keeps its dtype: the values sent are integers then)
+            return "ok"
         if c == "eo.visible":
             return " | ".join(fs2h(a) for a in self.eo_vis)
         # ---------------------------------------------------------------- search data
